@@ -5,7 +5,7 @@ the two functions interleaved, through the *public* functions over simk.
 Reference: per (function, device, counter) accumulator over the snapshots seen
 by nowrap=True calls."""
 from vf.explore.history import bfs
-from vf.harness import use_world, outcome, sample
+from vf.harness import use_world, outcome, sample, residue, ModuleResidue
 from vf.simk.world import World
 
 ID = "C10"
@@ -47,6 +47,7 @@ class Exec:
         w.spawn(1, ppid=0, comm=b"init", start=1)
         self.w = w
         use_world(w)
+        self.modres = ModuleResidue([psutil, psutil._pslinux, psutil._common])
         # raw kernel tables: fn -> dev -> field -> value ; presence
         self.raw = {"net": {d: {f: c.off + 10 + i for i, f in enumerate(NET_FIELDS)} for d in c.net_devs},
                     "disk": {d: {f: c.off + 20 + i for i, f in enumerate(DISK_FIELDS)} for d in c.disk_devs}}
@@ -257,6 +258,8 @@ class Exec:
                 "rk": sorted((k, sorted(map(list, v))) for k, v in wn.reminder_keys.get(name, {}).items() if v)}
             key["last"][fn] = sorted((list(k), v) for k, v in self.last[fn].items()
                                      if k[1] in ctrs)
+        key["wn_rest"] = residue(wn, ("cache", "reminders", "reminder_keys", "lock"))
+        key["modules"] = self.modres.diff()
         return key
 
 
